@@ -320,6 +320,10 @@ class QvmCpu:
                     return False
             else:
                 self.tick()
+            if self.halted:
+                # a halt takes precedence over any breakpoint at the
+                # following address
+                break
             for bp in self.breakpoints:
                 if bp(self):
                     self.last_breakpoint = bp
